@@ -55,6 +55,7 @@ def _ctor_args(fns, f):
 
 
 def run_slots(rec, S):
+    seen_ops = set()
     R = rec.rule("F2.s", "every construction of Invoke/SuperInvoke is immediately followed by InvokeSlot and every Get/SetPropByName by PropertySlot (the handlers read the 4-byte cache slot unconditionally), in the compiler and in peephole rewrites")
     n = 0
     for file, fns in ((COMPILER, compiler_fns(S)), (PEEPHOLE, peephole_fns(S))):
@@ -97,6 +98,7 @@ def run_slots(rec, S):
                 if ev.name not in SLOT_AFTER:
                     continue
                 n += 1
+                seen_ops.add(ev.name)
                 if id(ev.node) in passed:
                     h, pn = passed[id(ev.node)]
                     hevs = synq.events(fns[h])
@@ -122,7 +124,9 @@ def run_slots(rec, S):
                     rec.inst(R, "%s:%s<-prev" % (name, ev.name), ok=ok, loc=L(file, ev.line))
                     if not ok:
                         rec.finding(R, "F2.s/%s/orphan-%s" % (name, ev.name), "%s emits %s that does not follow a cache-using instruction" % (name, ev.name), loc=L(file, ev.line), fn=name)
-    rec.floor(R, "cache-using emissions", n, 8)
+    # the floor is per kind: each of the four cache-using instructions is emitted somewhere (sites may be merged)
+    rec.floor(R, "cache-using instructions emitted (kinds)", len(seen_ops), len(SLOT_AFTER))
+    rec.floor(R, "cache-using emissions", n, len(SLOT_AFTER))
 
 
 def run_twins(rec, S):
@@ -204,6 +208,18 @@ def run_fixed_index(rec, S):
             if ev.name in ("GetProp", "SetProp"):
                 n += 1
                 ok = ev.cond("has_explicit_super_class", False) or any(c[0] == "if" and re.search(r"!\s*\w*\.?has_explicit_super_class", c[1]) and c[2] is True for c in ev.ctx)
+                if not ok:
+                    # `match <slot of the field, if known> { Some(slot) => GetProp(slot), None => by name }`: the index is
+                    # only there on the ways the scrutinee produces Some(..)
+                    from ..facts import walk_expr
+                    for c in ev.ctx:
+                        if c[0] != "arm" or c[2] != frozenset({"Some"}):
+                            continue
+                        for node in walk_expr(f["body"]):
+                            if node.get("e") == "match" and synq.src(node["on"]) == c[1] and node["on"].get("e") == "block":
+                                leaves = [(cs, v) for cs, v in _value_leaves(node["on"], {}, []) if synq.src(v) != "None"]
+                                if leaves and all(any("has_explicit_super_class" in synq.src(x) and not re.search(r"!\s*\w*\.?has_explicit", synq.src(x)) and t is False for x, t in cs) for cs, v in leaves):
+                                    ok = True
                 rec.inst(R, "%s:%s" % (name, ev.name), ok=ok, loc=L(COMPILER, ev.line))
                 if not ok:
                     rec.finding(R, "F2.f/%s/%s" % (name, ev.name), "%s emits the fixed-index %s on a path where the class may have an explicit superclass (inherited fields shift the indices)" % (name, ev.name), loc=L(COMPILER, ev.line), fn=name)
@@ -334,6 +350,11 @@ def _split_cond(c, truth):
         return _split_cond(c["a"], True) + _split_cond(c["b"], True)
     if c.get("e") == "binary" and c.get("op") == "||" and not truth:
         return _split_cond(c["a"], False) + _split_cond(c["b"], False)
+    flip = {"==": "!=", "!=": "==", "<": ">=", ">=": "<", ">": "<=", "<=": ">"}
+    if c.get("e") == "binary" and c.get("op") in flip and not truth:
+        n = dict(c)
+        n["op"] = flip[c["op"]]
+        return [(n, True)]       # `!(a != b)` reads `a == b`
     return [(c, truth)]
 
 
